@@ -182,15 +182,17 @@ func init() {
 			"encoded by the real writer onto a simnet link (6 segmentation laws incl. cut sets aimed at header offsets, 5 buffer capacities) followed by a drawn tail (none, cut header, oversize length, cut payload, garbage), decoded by the real reader in a concurrent task; " +
 			"non-trivial when a Read was cut inside a header/payload, frames coalesced, the tail was not empty or a write was refused. " +
 			"forward (bubble): two real runBidirectionalForward instances joined by a frame-carrying simnet link, two applications each with a writer task (0-6 chunks up to 70000 bytes, then half-close) and a reader task, laws/capacities drawn per link; " +
-			"the local connection given to each forwarder is drawn among half-close capable / Close only / plain ReadWriter + LocalConnCloser, its Read either reports EOF separately or together with the last bytes, traffic counters are configured both/none/one, and every application chunk is preceded by a drawn pause (0-700 ms) so that either direction may end first; non-trivial when both directions carried bytes. " +
+			"the local connection given to each forwarder is drawn among half-close capable / Close only / plain ReadWriter + LocalConnCloser, its Read either reports EOF separately or together with the last bytes, traffic counters are configured both/none/one, and every application chunk is preceded by a drawn pause (0 ms - 2 h of simulated time) so that either direction may end first and tunnels live long; non-trivial when both directions carried bytes. " +
 			"stream (outside the bubble, loopback TCP): FrameStream A performs 0-6 writes (0,1,small,limit-1,limit,limit+1,2*limit,2*limit+1,200K,1M) and ends with CloseWrite/Close/nothing/write-after-close; the harness replays A's wire to FrameStream B in seeded chunks, " +
 			"inserting foreign-tunnel data/EOF/Close frames, own-tunnel frames of undefined and non-data types and empty data frames at drawn frame boundaries, in 1/4 of the runs cuts the wire (inside a header, right after a header, inside a payload, at a boundary), otherwise closes the connection after the last frame or (half of the runs that end with an EOF/Close frame) keeps it open; B reads with a drawn buffer policy (1 B - 128 KiB); " +
 			"in 1/3 of the runs one or two further writers (FrameStreams of other tunnels, raw WriteFrame callers) write on A's connection concurrently, interleaved at every instrumented yield/lock point by a seeded cooperative scheduler (their frames replace the injected ones); in 3/4 of the runs B first writes and/or CloseWrite/Close-s its own direction (checked on the wire) before it reads; in half of the runs frames of another connection (1 B - 64 KiB) are decoded with ReadFrameFromReader between B's Reads and their payloads are re-checked at the end; the wire fault may also be a header announcing more than the limit; " +
 			"non-trivial when a write was split, a frame was injected, writers were concurrent, B had closed its write side, the read buffer was smaller than a frame or the wire was cut/corrupt. " +
+			"after tunnel A's own EOF/Close a second tunnel may reuse both connections (half of the eligible runs): written through a second FrameStream on A's connection right behind A's frames, read on B's connection by a second FrameStream or by plain ReadFrame. " +
+			"bridge (outside the bubble, loopback TCP, 1/6 of the pure runs): the real CrossNodeListener.handleConnection -> handleTargetReady -> runBridgeForward with a real TunnelBridge; the harness is target node and source application and moves 1-8 chunks (1 B - 200 KiB) in drawn directions in lock-step, then both sides half-close in drawn order (one more chunk must still pass the other way); at most 3 runs per worker process keep the tunnel idle for 3.5 or 6 real seconds first. " +
 			"decoder (outside the bubble): arbitrary/mutated byte strings through the real decoder behind a seeded chunking reader with heap growth measured per call; non-trivial when the input was not a clean frame sequence. distinct = distinct schedule hash (bubble) or draw vector (pure) among the non-trivial runs.",
-		Real: []string{"crossnode.WriteFrameToWriter", "crossnode.ReadFrameFromReader", "crossnode.TunnelIDFromString/TunnelIDToString", "crossnode.FrameStream Read/Write/CloseWrite/Close over crossnode.Conn and *net.TCPConn (WriteFrame/ReadFrame)", "session.runBidirectionalForward + CountingReadWriter"},
-		Stub: []string{"codec/forward worlds: transport is a simnet link", "forward world: the RemoteConn given to runBidirectionalForward is a harness frame stream (real codec functions, harness read/write/half-close state) because FrameStream only accepts *net.TCPConn", "stream world: kernel loopback TCP with the harness as the wire between two socket pairs; the peer node is the harness", "crossnode pool, CrossNodeListener accept loop and handlers are not started"},
-		Assumptions: []string{"the frame layout and the 64 KiB payload limit are taken from the property text", "a connection that ends exactly at a frame boundary without an EOF/Close frame may be reported as end-of-stream (don't-care)", "frames that follow a tunnel's own EOF/Close frame are not generated", "the stream world's observable history (bytes and errors returned by Read/Write) does not depend on kernel timing because one Read returns bytes of exactly one frame; real time is used only for 8 s socket deadlines", "end-of-stream propagation from the cross-node stream to the local connection of runBidirectionalForward is not part of the property text (applications half-close independently of what they read)"},
+		Real: []string{"crossnode.WriteFrameToWriter", "crossnode.ReadFrameFromReader", "crossnode.TunnelIDFromString/TunnelIDToString", "crossnode.FrameStream Read/Write/CloseWrite/Close over crossnode.Conn and *net.TCPConn (WriteFrame/ReadFrame)", "session.runBidirectionalForward + CountingReadWriter", "session.CrossNodeListener.handleConnection/handleTargetReady/runBridgeForward + tunnel.Bridge source forwarder"},
+		Stub: []string{"codec/forward worlds: transport is a simnet link", "forward world: the RemoteConn given to runBidirectionalForward is a harness frame stream (real codec functions, harness read/write/half-close state) because FrameStream only accepts *net.TCPConn", "stream world: kernel loopback TCP with the harness as the wire between two socket pairs; the peer node is the harness", "bridge world: the SessionManager is only its bridge and closed-tunnel tables (overlay NewBridgeTableForVerif), the accept loop is replaced by a harness-made loopback pair; crossnode pool and the HTTP/DNS/command handlers are not started"},
+		Assumptions: []string{"the frame layout and the 64 KiB payload limit are taken from the property text", "a connection that ends exactly at a frame boundary without an EOF/Close frame may be reported as end-of-stream (don't-care)", "after a tunnel's own EOF/Close frame only frames of other tunnels follow on the connection", "real-socket paths have no fake clock: the bridge world observes tunnel lifetimes of at most ~7 real seconds and spends at most 3 long idle periods per worker process (later draws of a long idle period run without it, also while a finding is minimised)", "the stream world's observable history (bytes and errors returned by Read/Write) does not depend on kernel timing because one Read returns bytes of exactly one frame; real time is used only for 8 s socket deadlines", "end-of-stream propagation from the cross-node stream to the local connection of runBidirectionalForward is not part of the property text (applications half-close independently of what they read)"},
 		Opt: func(tier string) simrt.Options {
 			return simrt.Options{MaxSteps: 3000000}
 		},
@@ -646,7 +648,7 @@ func c10RunForward(w *simrt.World) {
 		n := c.Biased(7, name+".chunks")
 		for i := 0; i < n; i++ {
 			// pacing: lets one direction finish (and half-close) while the other still has bytes to send
-			delays = append(delays, []time.Duration{0, 0, time.Millisecond, 50 * time.Millisecond, 700 * time.Millisecond}[c.Intn(5, name+".delay")])
+			delays = append(delays, []time.Duration{0, 0, time.Millisecond, 50 * time.Millisecond, 700 * time.Millisecond, 5 * time.Second, 3 * time.Minute, 2 * time.Hour}[c.Intn(8, name+".delay")])
 			var sz int
 			switch c.Intn(6, name+".size.class") {
 			case 0:
@@ -767,9 +769,23 @@ func c10RunForward(w *simrt.World) {
 		}))
 	}
 	tasks = append(tasks, n1, n2)
-	// No timers exist in this code and the applications pace themselves for
-	// less than 5 s: after 30 simulated seconds everything that can happen has happened.
-	w.Sleep(30 * time.Second)
+	// The applications pace themselves (up to hours of simulated time: a tunnel
+	// is long-lived and nothing may cap its lifetime); 30 simulated seconds after
+	// the last planned pause everything that can happen has happened.
+	var longest time.Duration
+	for _, dl := range [][]time.Duration{dl1, dl2} {
+		var sum time.Duration
+		for _, d := range dl {
+			sum += d
+		}
+		if sum > longest {
+			longest = sum
+		}
+	}
+	if longest >= 5*time.Second {
+		w.Probe("forward.long-lived-tunnel")
+	}
+	w.Sleep(longest + 30*time.Second)
 	var stuck []string
 	for i, t := range tasks {
 		if !t.Done() {
@@ -842,7 +858,23 @@ func c10RunForward(w *simrt.World) {
 
 // ------------------------------------------------------------------- pure
 
+// Real-time patience on loopback sockets. A wait only ever times out on a
+// defective tree; after a few such timeouts in one worker process further
+// waits are cut short so that minimising a finding does not take hours. A
+// fresh process (every replay) starts with full patience again.
+var c10TimeoutsSeen atomic.Int32
+
+func c10Patience(d time.Duration) time.Duration {
+	if c10TimeoutsSeen.Load() >= 4 {
+		return 500 * time.Millisecond
+	}
+	return d
+}
+
 func c10Viol(res *simrt.Result, sig, format string, a ...any) {
+	if strings.Contains(sig, "starved") || strings.Contains(sig, ":hang") || strings.Contains(sig, "no-eof-after-terminal-frame") || strings.Contains(sig, "not-delivered") || strings.Contains(sig, "never-returns") {
+		c10TimeoutsSeen.Add(1)
+	}
 	for _, v := range res.Violations {
 		if v.Sig == sig {
 			return
@@ -859,11 +891,14 @@ func c10Pure(c *simrt.Choice, res *simrt.Result, tier string) {
 			c10Viol(res, "C10:panic", "panic outside the bubble: %v\n%s", r, buf)
 		}
 	}()
-	if c.Intn(3, "pure.world") == 2 {
+	switch w := c.Intn(12, "pure.world"); {
+	case w >= 10:
+		c10PureBridge(c, res)
+	case w >= 7:
 		c10PureDecoder(c, res)
-		return
+	default:
+		c10PureStream(c, res)
 	}
-	c10PureStream(c, res)
 }
 
 // c10chunkReader hands out its bytes in seeded chunk sizes.
@@ -1259,6 +1294,21 @@ func c10PureStream(c *simrt.Choice, res *simrt.Result) {
 	}
 	inject := c.Chance(2, 3, "inject")
 	cut := c.Chance(1, 4, "cut")
+	// connection reuse: a FrameStream is a temporary per-tunnel view of a pooled
+	// connection. After tunnel A has ended with its own EOF/Close frame a second
+	// tunnel uses the same connections on both nodes; its frames are already in
+	// flight behind A's when B finishes tunnel A.
+	reuse := ending != "none" && !cut && c.Chance(1, 2, "reuse")
+	var reuseSizes []int
+	reuseEnding, reuseReader := "closewrite", "stream"
+	reuseID := c10RefID("next-tenant/" + own)
+	if reuse {
+		for i, k := 0, 1+c.Intn(3, "reuse.writes"); i < k; i++ {
+			reuseSizes = append(reuseSizes, []int{1, 17, 300, 4096, 20000, c10Limit, c10Limit + 1, 150000}[c.Intn(8, "reuse.size")])
+		}
+		reuseEnding = []string{"closewrite", "close"}[c.Intn(2, "reuse.ending")]
+		reuseReader = []string{"stream", "raw-readframe"}[c.Intn(2, "reuse.reader")]
+	}
 	// other decoding activity in the process between B's reads (another
 	// connection's reader, the listener reading a first frame): what B still
 	// holds of a partially consumed frame, and what a decoder returned earlier,
@@ -1487,6 +1537,27 @@ func c10PureStream(c *simrt.Choice, res *simrt.Result) {
 			}
 		}
 	}
+	var reuseSent []byte
+	if reuse && len(res.Violations) == 0 {
+		fs2 := crossnode.NewFrameStream(connA, reuseID)
+		for i, sz := range reuseSizes {
+			p := c10Pattern(sz, byte(0x70+i))
+			if n, err := fs2.Write(p); err != nil || n != sz {
+				c10Viol(res, "C10:stream:reuse:write-failed", "second tunnel on A's connection: write %d of %d bytes returned n=%d err=%v", i, sz, n, err)
+				break
+			}
+			reuseSent = append(reuseSent, p...)
+		}
+		var err error
+		if reuseEnding == "close" {
+			err = fs2.Close()
+		} else {
+			err = fs2.CloseWrite()
+		}
+		if err != nil {
+			c10Viol(res, "C10:stream:reuse:close-failed", "second tunnel on A's connection: %s: %v", reuseEnding, err)
+		}
+	}
 	if len(res.Violations) > 0 {
 		sA.Close()
 		<-drainCh
@@ -1512,7 +1583,7 @@ func c10PureStream(c *simrt.Choice, res *simrt.Result) {
 	}
 	// every frame on the wire belongs to exactly one writer; per writer the
 	// frames carry what it wrote, in order, and its EOF/Close frame comes last
-	var aFrames []c10frame
+	var aFrames, nextFrames []c10frame
 	{
 		type acct struct {
 			name    string
@@ -1523,6 +1594,9 @@ func c10PureStream(c *simrt.Choice, res *simrt.Result) {
 		accts := map[[16]byte]*acct{idA: {name: "A"}}
 		for j, o := range others {
 			accts[o.id] = &acct{name: fmt.Sprintf("other%d(%s)", j, o.kind)}
+		}
+		if reuse {
+			accts[reuseID] = &acct{name: "next-tenant"}
 		}
 		for i := range allFrames {
 			f := &allFrames[i]
@@ -1548,6 +1622,9 @@ func c10PureStream(c *simrt.Choice, res *simrt.Result) {
 			if a.name == "A" {
 				f.origin = "A"
 				aFrames = append(aFrames, *f)
+			} else if a.name == "next-tenant" {
+				f.origin = "next-tenant"
+				nextFrames = append(nextFrames, *f)
 			} else {
 				f.origin = map[byte]string{c10TData: "foreign-data", c10TEOF: "foreign-eof", c10TClose: "foreign-close", 0x06: "foreign-raw"}[f.typ]
 			}
@@ -1560,6 +1637,13 @@ func c10PureStream(c *simrt.Choice, res *simrt.Result) {
 		if a.term != termType {
 			c10Viol(res, "C10:stream:wire:no-terminal-frame"+cw, "ending=%s but A's last frame on the wire is type %#x, not %#x", ending, a.term, termType)
 			return
+		}
+		if reuse {
+			na := accts[reuseID]
+			if !bytes.Equal(na.data, reuseSent) || na.term != map[string]byte{"closewrite": c10TEOF, "close": c10TClose}[reuseEnding] {
+				c10Viol(res, "C10:stream:reuse:wire-mismatch", "the second tunnel on A's connection wrote %d bytes ending %q; the wire carries %d bytes for it (first difference at %d), terminal frame %#x", len(reuseSent), reuseEnding, len(na.data), firstDiff(na.data, reuseSent), na.term)
+				return
+			}
 		}
 		for j, o := range others {
 			oa := accts[o.id]
@@ -1626,6 +1710,9 @@ func c10PureStream(c *simrt.Choice, res *simrt.Result) {
 		if i < len(aFrames) {
 			feedFrames = append(feedFrames, aFrames[i])
 		}
+	}
+	if !conc {
+		feedFrames = append(feedFrames, nextFrames...)
 	}
 	var feed []byte
 	var bounds []int // start offset of every feed frame
@@ -1738,8 +1825,8 @@ func c10PureStream(c *simrt.Choice, res *simrt.Result) {
 	for _, o := range others {
 		concDesc = append(concDesc, fmt.Sprintf("%s%v/%s", o.kind, o.sizes, o.ending))
 	}
-	res.Sample = fmt.Sprintf("world=stream concurrent=%v reader-ops=%s other-decoder=%v ids=%s(shared16=%v) writes=%v ending=%s frames=%d inject=%v cut=%s@%d/%d readbuf=%v feedchunks=%v", concDesc, bOps, interleave, idClass, shared, sizes, ending, len(aFrames), injDesc, cutClass, cutAt, len(feed), bufSizes, chunkPlan)
-	res.States[fmt.Sprintf("stream/%s/%s/%s/inj%v/buf%d/%s/conc%d/%s", szClass, ending, cutClass, len(injs) > 0, bufClass, idClass, len(others), bOps)]++
+	res.Sample = fmt.Sprintf("world=stream concurrent=%v reader-ops=%s other-decoder=%v reuse=%v/%s/%s ids=%s(shared16=%v) writes=%v ending=%s frames=%d inject=%v cut=%s@%d/%d readbuf=%v feedchunks=%v", concDesc, bOps, interleave, reuseSizes, reuseEnding, reuseReader, idClass, shared, sizes, ending, len(aFrames), injDesc, cutClass, cutAt, len(feed), bufSizes, chunkPlan)
+	res.States[fmt.Sprintf("stream/%s/%s/%s/inj%v/buf%d/%s/conc%d/%s/reuse%v", szClass, ending, cutClass, len(injs) > 0, bufClass, idClass, len(others), bOps, reuse)]++
 	if cutClass != "none" {
 		res.Faults["stream.wire-cut."+cutClass]++
 	}
@@ -1751,7 +1838,7 @@ func c10PureStream(c *simrt.Choice, res *simrt.Result) {
 			}
 		}
 	}
-	if multi || len(injs) > 0 || smallBuf || cutClass != "none" || conc || bOps != "none" {
+	if multi || len(injs) > 0 || smallBuf || cutClass != "none" || conc || bOps != "none" || reuse {
 		res.Nontrivial = true
 	}
 	if smallBuf {
@@ -1825,7 +1912,7 @@ func c10PureStream(c *simrt.Choice, res *simrt.Result) {
 	keepOpen := termType != 0 && cutClass == "none" && c.Chance(1, 2, "feed.keep-open")
 	if keepOpen {
 		res.Probes["stream.connection-kept-open-after-terminal-frame"]++
-		sB.SetReadDeadline(time.Now().Add(5 * time.Second))
+		sB.SetReadDeadline(time.Now().Add(c10Patience(5 * time.Second)))
 	}
 	feedDone := make(chan error, 1)
 	go func() {
@@ -1895,6 +1982,55 @@ func c10PureStream(c *simrt.Choice, res *simrt.Result) {
 	if rerr == io.EOF {
 		if n, err := fsB.Read(make([]byte, 16)); n != 0 || err != io.EOF {
 			c10Viol(res, "C10:stream:eof-not-sticky", "Read after end-of-stream returned n=%d err=%v", n, err)
+		}
+	}
+	// ---- the connection's next tenant: a second consumer on B's connection
+	if reuse && rerr == io.EOF && bytes.Equal(got, want) && len(res.Violations) == 0 {
+		res.Probes["stream.connection-reused."+reuseReader]++
+		sB.SetReadDeadline(time.Now().Add(c10Patience(5 * time.Second)))
+		var got2 []byte
+		var rerr2 error
+		if reuseReader == "stream" {
+			fsB2 := crossnode.NewFrameStream(connB, reuseID)
+			for r := 0; r < len(reuseSent)+64; r++ {
+				buf := make([]byte, bufSizes[r%len(bufSizes)])
+				n, err := fsB2.Read(buf)
+				got2 = append(got2, buf[:n]...)
+				if err != nil {
+					rerr2 = err
+					break
+				}
+			}
+		} else {
+			// what users of a pooled connection and the listener do: ReadFrame on the connection itself
+			for r := 0; r < len(feedFrames)+8; r++ {
+				id, typ, data, err := crossnode.ReadFrame(sB)
+				if err != nil {
+					rerr2 = err
+					break
+				}
+				if id != reuseID {
+					continue
+				}
+				if typ == c10TData {
+					got2 = append(got2, data...)
+				} else if typ == c10TEOF || typ == c10TClose {
+					rerr2 = io.EOF
+					break
+				}
+			}
+		}
+		switch {
+		case rerr2 != nil && rerr2 != io.EOF && (errors.Is(rerr2, os.ErrDeadlineExceeded) || strings.Contains(rerr2.Error(), "i/o timeout")):
+			c10Viol(res, "C10:stream:reuse:second-tunnel-starved:"+reuseReader, "tunnel A ended with its %#x frame and B read it to end-of-stream; the next tunnel's %d frames (%d bytes) had been sent right behind A's, but the second consumer (%s) on B's connection received %d bytes and then nothing for 5 s", termType, len(nextFrames), len(reuseSent), reuseReader, len(got2))
+		case !bytes.Equal(got2, reuseSent):
+			cls := "data-mismatch"
+			if len(got2) < len(reuseSent) && bytes.Equal(got2, reuseSent[:len(got2)]) {
+				cls = "incomplete"
+			}
+			c10Viol(res, "C10:stream:reuse:"+cls+":"+reuseReader, "the next tunnel on the same connections: %d bytes written, the second consumer (%s) on B's connection received %d (first difference at %d), then %v", len(reuseSent), reuseReader, len(got2), firstDiff(got2, reuseSent), rerr2)
+		case rerr2 != io.EOF:
+			c10Viol(res, "C10:stream:reuse:no-eof:"+reuseReader, "the next tunnel's %d bytes arrived, then %v instead of end-of-stream (it ended with %s)", len(got2), rerr2, reuseEnding)
 		}
 	}
 	for i, d := range retained {
@@ -1993,5 +2129,234 @@ func c10PureStream(c *simrt.Choice, res *simrt.Result) {
 	default:
 		// the connection ended at a frame boundary without EOF/Close frame: don't-care
 		res.Probes["stream.cut-at-boundary"]++
+	}
+}
+
+// ----------------------------------------------------------------- bridge
+//
+// The source node's cross-node listener (CrossNodeListener.handleConnection ->
+// handleTargetReady -> runBridgeForward) only accepts *net.TCPConn, so this
+// world also runs outside the bubble on loopback sockets, in lock-step: the
+// harness is the target node on one socket and the source application on the
+// other, and moves one chunk at a time. A tunnel is long-lived; most runs use
+// pauses of milliseconds, a few runs per worker process keep the tunnel idle for
+// several REAL seconds (there is no fake clock on real sockets).
+
+var c10LongPausesLeft atomic.Int32
+
+func init() { c10LongPausesLeft.Store(3) }
+
+func c10PureBridge(c *simrt.Choice, res *simrt.Result) {
+	res.Probes["world.bridge"]++
+	own, _, idClass := c10IDStrings(c)
+	type phase struct {
+		down  bool
+		size  int
+		pause time.Duration
+	}
+	var phases []phase
+	nPh := 1 + c.Intn(6, "br.phases")
+	for i := 0; i < nPh; i++ {
+		ph := phase{down: c.Intn(2, "br.dir") == 0}
+		ph.size = []int{1, 300, 32*1024 - 1 + c.Intn(3, "br.size"), 70000, 200 << 10, 5000}[c.Intn(6, "br.size.class")]
+		ph.pause = []time.Duration{0, 0, 0, 5 * time.Millisecond, 150 * time.Millisecond}[c.Intn(5, "br.pause")]
+		phases = append(phases, ph)
+	}
+	longDur := time.Duration(0)
+	if c.Chance(1, 40, "br.long") {
+		longDur = []time.Duration{3500 * time.Millisecond, 6 * time.Second}[c.Intn(2, "br.long.dur")]
+		at := c.Intn(len(phases), "br.long.at")
+		if c10LongPausesLeft.Add(-1) < 0 {
+			// the real-time budget of this worker process is used up (also keeps replays
+			// during minimisation short): run the same tunnel without the long idle period
+			res.Probes["bridge.long-idle-skipped"]++
+			longDur = 0
+		} else {
+			phases[at].pause = longDur
+			// a long-lived tunnel still has to carry bytes both ways afterwards
+			phases = append(phases, phase{down: true, size: 100}, phase{down: false, size: 100})
+		}
+	}
+	targetEndsFirst := c.Intn(2, "br.end") == 0
+	var desc []string
+	for _, ph := range phases {
+		d := "up"
+		if ph.down {
+			d = "down"
+		}
+		desc = append(desc, fmt.Sprintf("%v+%s:%d", ph.pause, d, ph.size))
+	}
+	res.Sample = fmt.Sprintf("world=bridge id=%s phases=%v target-half-closes-first=%v", idClass, desc, targetEndsFirst)
+	res.States[fmt.Sprintf("bridge/%s/%d/%v/long=%v", idClass, len(phases), targetEndsFirst, longDur)]++
+
+	ln, err := net.Listen("tcp", "127.0.0.1:0")
+	if err != nil {
+		c10Viol(res, "C10:harness:loopback", "listen: %v", err)
+		return
+	}
+	defer ln.Close()
+	pair := func() (dialed, accepted *net.TCPConn, err error) {
+		type acc struct {
+			c   net.Conn
+			err error
+		}
+		ch := make(chan acc, 1)
+		go func() { cn, err := ln.Accept(); ch <- acc{cn, err} }()
+		d, err := net.DialTimeout("tcp", ln.Addr().String(), 5*time.Second)
+		if err != nil {
+			return nil, nil, err
+		}
+		select {
+		case a := <-ch:
+			if a.err != nil {
+				d.Close()
+				return nil, nil, a.err
+			}
+			return d.(*net.TCPConn), a.c.(*net.TCPConn), nil
+		case <-time.After(5 * time.Second):
+			d.Close()
+			return nil, nil, fmt.Errorf("accept timed out")
+		}
+	}
+	srcApp, srcServer, err := pair()
+	if err != nil {
+		c10Viol(res, "C10:harness:loopback", "source pair: %v", err)
+		return
+	}
+	defer srcApp.Close()
+	defer srcServer.Close()
+	target, accepted, err := pair()
+	if err != nil {
+		c10Viol(res, "C10:harness:loopback", "cross-node pair: %v", err)
+		return
+	}
+	defer target.Close()
+	defer accepted.Close()
+	ctx, cancel := context.WithCancel(context.Background())
+	defer cancel()
+	sm := session.NewBridgeTableForVerif()
+	bridge := session.NewTunnelBridge(ctx, &session.TunnelBridgeConfig{TunnelID: own, MappingID: "mapping-c10", SourceConn: srcServer})
+	defer bridge.Close()
+	if bridge.GetSourceForwarder() == nil {
+		c10Viol(res, "C10:harness:bridge", "bridge has no source forwarder")
+		return
+	}
+	sm.RegisterBridgeForVerif(own, bridge)
+	l := session.NewCrossNodeListener(sm, 0)
+	handlerDone := make(chan struct{})
+	go func() {
+		defer close(handlerDone)
+		l.HandleConnectionForVerif(ctx, accepted)
+	}()
+	// the handler runs instrumented code: it must be gone before this run returns
+	defer func() {
+		target.Close()
+		srcApp.Close()
+		accepted.Close()
+		srcServer.Close()
+		cancel()
+		select {
+		case <-handlerDone:
+		case <-time.After(10 * time.Second):
+			c10Viol(res, "C10:harness:bridge", "the listener's handler did not return after all four sockets were closed")
+		}
+	}()
+	id16, _ := crossnode.TunnelIDFromString(own)
+	target.SetWriteDeadline(time.Now().Add(5 * time.Second))
+	if err := crossnode.WriteFrame(target, id16, 0x02, crossnode.EncodeTargetReadyMessage(own, "node-b")); err != nil {
+		c10Viol(res, "C10:harness:loopback", "writing TargetReady: %v", err)
+		return
+	}
+	started := time.Now()
+	age := func() string {
+		if longDur > 0 && time.Since(started) > longDur {
+			return ":long-lived-tunnel"
+		}
+		return ""
+	}
+	// one chunk from `from` must arrive at `to`, byte exact
+	move := func(i int, dir string, from, to *net.TCPConn, p []byte) bool {
+		werr := make(chan error, 1)
+		from.SetWriteDeadline(time.Now().Add(c10Patience(6 * time.Second)))
+		go func() { _, err := from.Write(p); werr <- err }()
+		got := make([]byte, len(p))
+		to.SetReadDeadline(time.Now().Add(c10Patience(6 * time.Second)))
+		n, err := io.ReadFull(to, got)
+		if err != nil {
+			cls := "not-delivered"
+			if err == io.EOF || err == io.ErrUnexpectedEOF {
+				cls = "end-of-stream-before-half-close"
+			}
+			c10Viol(res, "C10:bridge:"+cls+":"+dir+age(), "phase %d (%s, %d bytes, tunnel age %v): the receiver got %d bytes and then %v although the sender had neither closed nor half-closed", i, dir, len(p), time.Since(started).Round(100*time.Millisecond), n, err)
+			return false
+		}
+		if !bytes.Equal(got, p) {
+			c10Viol(res, "C10:bridge:data-mismatch:"+dir+age(), "phase %d (%s, %d bytes): first difference at %d", i, dir, len(p), firstDiff(got, p))
+			return false
+		}
+		if e := <-werr; e != nil {
+			c10Viol(res, "C10:bridge:write-failed:"+dir+age(), "phase %d (%s, %d bytes): sender's write failed: %v", i, dir, len(p), e)
+			return false
+		}
+		return true
+	}
+	for i, ph := range phases {
+		time.Sleep(ph.pause)
+		p := c10Pattern(ph.size, byte(i*29+7))
+		ok := false
+		if ph.down {
+			ok = move(i, "download", target, srcApp, p)
+		} else {
+			ok = move(i, "upload", srcApp, target, p)
+		}
+		if !ok {
+			return
+		}
+	}
+	// end: each side half-closes; the other side must see end-of-stream then, and nothing else
+	expectEOF := func(dir string, to *net.TCPConn) bool {
+		to.SetReadDeadline(time.Now().Add(c10Patience(6 * time.Second)))
+		b := make([]byte, 16)
+		n, err := to.Read(b)
+		if n != 0 || err != io.EOF {
+			c10Viol(res, "C10:bridge:no-eof:"+dir+age(), "after the sender of the %s direction half-closed the receiver read n=%d err=%v instead of end-of-stream", dir, n, err)
+			return false
+		}
+		return true
+	}
+	if targetEndsFirst {
+		target.CloseWrite()
+		if !expectEOF("download", srcApp) {
+			return
+		}
+		// the other direction still works after a half-close
+		if !move(len(phases), "upload", srcApp, target, c10Pattern(777, 0x3C)) {
+			return
+		}
+		srcApp.CloseWrite()
+		if !expectEOF("upload", target) {
+			return
+		}
+	} else {
+		srcApp.CloseWrite()
+		if !expectEOF("upload", target) {
+			return
+		}
+		if !move(len(phases), "download", target, srcApp, c10Pattern(777, 0x3C)) {
+			return
+		}
+		target.CloseWrite()
+		if !expectEOF("download", srcApp) {
+			return
+		}
+	}
+	select {
+	case <-handlerDone:
+	case <-time.After(c10Patience(6 * time.Second)):
+		c10Viol(res, "C10:bridge:handler-never-returns"+age(), "both directions ended with a half-close and were delivered, the listener's connection handler is still running after 6 s")
+	}
+	res.Nontrivial = true
+	if longDur > 0 {
+		res.Probes["bridge.long-lived-tunnel."+longDur.String()]++
 	}
 }
